@@ -186,8 +186,19 @@ pub fn prop_c06(lines: &[String]) -> String {
     format!("OK rejected={rejected}")
 }
 
+pub fn enc(bytes: &[u8]) -> String {
+    match rosu_map::from_bytes::<Beatmap>(bytes) {
+        Ok(mut m) => match m.encode_to_string() {
+            Ok(t) => format!("ok {}", crate::util::hex(t.as_bytes())),
+            Err(e) => err(&e),
+        },
+        Err(e) => err(&e),
+    }
+}
+
 pub fn dispatch_impl(toks: &[&str]) -> Option<String> {
     match toks {
+        ["enc", hex] => Some(enc(&unhex(hex))),
         ["dec", hex] => Some(dec(&unhex(hex))),
         ["decshift", _k, a, b] => Some(format!("{} ## {}", dec(&unhex(a)), dec(&unhex(b)))),
         ["dec9", hex] => Some(dec9(&unhex(hex)).into_iter().map(|(n, d)| format!("{n}={d}")).collect::<Vec<_>>().join(" ## ")),
